@@ -140,6 +140,19 @@ class Hist:
                 self.scopes.pop()
                 self.exits += 1
                 self.out.append("}")
+            elif k == 5 and self.lookup(n) is None:
+                # the name has no declaration at all so far in this unit: it is an ordinary identifier wherever it appears -
+                # as the name of a function being defined, an enumerator, or a label
+                form = r.randint(0, 2)
+                self.n += 1
+                if form == 0:
+                    self.out.append(f"int {n} ( int k{self.n} ) {{ return k{self.n} ; }}")
+                    self.scopes[-1][n] = False
+                elif form == 1:
+                    self.out.append(f"enum {{ E{self.n} , {n} }} ;")
+                    self.scopes[-1][n] = False
+                else:
+                    self.out.append(f"void lab{self.n} ( void ) {{ goto {n} ; {n} : ; }}")       # labels have their own name space: nothing changes
             elif k == 3:
                 self.n += 1
                 self.out.append(f"void proto{self.n} ( int {n} ) ;")         # prototype-only parameter names never matter
